@@ -38,6 +38,31 @@ def _const_ids(t, _cache={}):
     return out
 
 
+def _decl_ids(t, _cache={}):
+    """ids of the uninterpreted function declarations (arity >= 1) applied in a z3 term"""
+    key = t.get_id()
+    if key in _cache:
+        return _cache[key]
+    out = set()
+    seen = set()
+    stack = [t]
+    while stack:
+        e = stack.pop()
+        i = e.get_id()
+        if i in seen:
+            continue
+        seen.add(i)
+        if z3.is_quantifier(e):
+            stack.append(e.body())
+            continue
+        if z3.is_app(e) and e.num_args() > 0 and e.decl().kind() == z3.Z3_OP_UNINTERPRETED:
+            out.add(e.decl().get_id())
+        stack.extend(e.children())
+    if len(_cache) < 20000:
+        _cache[key] = out
+    return out
+
+
 def _value_const_ids(v):
     out = set()
     if isinstance(v, (VBool, VInt, VReal, VStr)):
@@ -413,6 +438,10 @@ class Interp:
         cb = concrete_bool(c)
         if cb is not None:
             return a if cb else b
+        if isinstance(a, VUndef):
+            return b
+        if isinstance(b, VUndef):
+            return a
         if isinstance(a, VBool) and isinstance(b, VBool):
             return VBool(z3.If(c, a.term, b.term))
         if isinstance(a, VInt) and isinstance(b, VInt):
@@ -786,6 +815,8 @@ class Interp:
                 return c.items[kk.as_long()]
             # symbolic index into a concrete list: ite chain
             items = c.items
+            if not items:
+                return UNDEF
             r = items[-1]
             for i in range(len(items) - 2, -1, -1):
                 r = self.v_ite(k == i, items[i], r)
@@ -1119,6 +1150,17 @@ class Interp:
             else:
                 args.append(self.ev(a, env))
         for kw in node.keywords:
+            if self.spec_mode and kw.arg in ("hints", "inner") and isinstance(kw.value, (ast.List, ast.Tuple)):
+                # witness hints may mention names that exist only in some proof contexts (e.g. the loop variable):
+                # a hint that cannot be evaluated is simply not offered
+                items = []
+                for e in kw.value.elts:
+                    try:
+                        items.append(self.ev(e, env))
+                    except (Unsupported, PyRaise):
+                        pass
+                kwargs[kw.arg] = VList(ConcreteSeq(items))
+                continue
             v = self.ev(kw.value, env)
             if kw.arg is None:
                 if not (isinstance(v, VDict) and v.items is not None):
@@ -1567,8 +1609,11 @@ class Interp:
         used |= _value_const_ids(elem)
         hvars = [c for c in fresh if c.get_id() in used]
         hids = {c.get_id() for c in hvars}
-        loop_part = [t for t in conj if not (_const_ids(t) & hids)]
-        hav_part = [t for t in conj if (_const_ids(t) & hids)]
+        # symbols (functions) created in the body, e.g. the dict returned by a callee's contract: what is known
+        # about them is knowledge (cond_h), never something to establish
+        fids = {f.get_id() for f in frames[0].get("fresh_funs", [])}
+        loop_part = [t for t in conj if not (_const_ids(t) & hids) and not (fids and (_decl_ids(t) & fids))]
+        hav_part = [t for t in conj if (_const_ids(t) & hids) or (fids and (_decl_ids(t) & fids))]
         cond = z3.And(*loop_part) if loop_part else z3.BoolVal(True)
         cond_h = z3.And(*hav_part) if hav_part else z3.BoolVal(True)
         label = f"L{getattr(node, 'lineno', '?')}"
@@ -1734,6 +1779,7 @@ class Interp:
             frame["bvars"] = []
             frame["emits"] = []
             frame["fresh"] = []
+            frame["fresh_funs"] = []
             frame["pc_mark"] = len(ctx.pc)
             opts = self.element_options(it, node)
             if not opts:
